@@ -56,7 +56,7 @@ VARIABLES pipeline,  \* "single" | "multi"
           pc,        \* parent program counter
           status,    \* "none" | "unfinished" | "fail" | "ok"     content class of <out>.status.txt
           unsorted,  \* [st: "absent"|"open"|"closed", n, rg]      <out>.bam.unsorted (single pipeline)
-          out,       \* [st: "absent"|"partial"|"complete", n, sorted]
+          out,       \* [st: "absent"|"partial"|"complete", n, sorted, rg (header declares the read groups)]
           bai,       \* "absent" | "ok"
           w,         \* worker/job state  [j -> [pc, n]]
           planned, collected,
@@ -72,14 +72,14 @@ GenSizesT == {<<1, 2, 1>>, <<0, 1, 2>>, <<2, 0, 1>>}
 Sum(f) == FoldSet(LAMBDA j, acc : acc + f[j], 0, DOMAIN f)
 Total == Sum(size)
 
-NoFile == [st |-> "absent", n |-> 0, sorted |-> FALSE]
+NoFile == [st |-> "absent", n |-> 0, sorted |-> FALSE, rg |-> FALSE]
 WIdle == [pc |-> "idle", n |-> 0]
 
 Init == /\ pipeline \in Pipelines
         /\ size \in SizeChoices
         /\ pc = "start"
         /\ prev \in PrevChoices
-        /\ IF prev THEN status = "ok" /\ out = [st |-> "complete", n |-> Total, sorted |-> TRUE] /\ bai = "ok"
+        /\ IF prev THEN status = "ok" /\ out = [st |-> "complete", n |-> Total, sorted |-> TRUE, rg |-> TRUE] /\ bai = "ok"
                    ELSE status = "none" /\ out = NoFile /\ bai = "absent"
         /\ unsorted = [st |-> "absent", n |-> 0, rg |-> FALSE]
         /\ w = [j \in Jobs |-> WIdle]
@@ -115,11 +115,11 @@ CloseUnsorted == /\ Step("close", "addrg") /\ unsorted' = [unsorted EXCEPT !.st 
                  /\ UNCHANGED <<pipeline, prev, size, status, out, bai, w, planned, collected, tries, crashed, crashAt, crashKind, crashJob, tempLeft>>
 AddReadGroups == /\ Step("addrg", "sort") /\ unsorted' = [unsorted EXCEPT !.rg = TRUE]    \* temp file + atomic rename
                  /\ UNCHANGED <<pipeline, prev, size, status, out, bai, w, planned, collected, tries, crashed, crashAt, crashKind, crashJob, tempLeft>>
-SortBegin     == /\ Step("sort", "sorting") /\ out' = [st |-> "partial", n |-> 0, sorted |-> TRUE]
+SortBegin     == /\ Step("sort", "sorting") /\ out' = [st |-> "partial", n |-> 0, sorted |-> TRUE, rg |-> FALSE]
                  /\ UNCHANGED <<pipeline, prev, size, status, unsorted, bai, w, planned, collected, tries, crashed, crashAt, crashKind, crashJob, tempLeft>>
 SortFail      == /\ Step("sorting", "sort") /\ tries < 2 /\ tries' = tries + 1          \* caught, retried elsewhere
                  /\ UNCHANGED <<pipeline, prev, size, status, unsorted, out, bai, w, planned, collected, crashed, crashAt, crashKind, crashJob, tempLeft>>
-SortEnd       == /\ Step("sorting", "index") /\ out' = [st |-> "complete", n |-> unsorted.n, sorted |-> TRUE]
+SortEnd       == /\ Step("sorting", "index") /\ out' = [st |-> "complete", n |-> unsorted.n, sorted |-> TRUE, rg |-> unsorted.rg]
                  /\ UNCHANGED <<pipeline, prev, size, status, unsorted, bai, w, planned, collected, tries, crashed, crashAt, crashKind, crashJob, tempLeft>>
 Index         == /\ Step("index", "rmunsorted") /\ bai' = "ok"
                  /\ UNCHANGED <<pipeline, prev, size, status, unsorted, out, w, planned, collected, tries, crashed, crashAt, crashKind, crashJob, tempLeft>>
@@ -154,10 +154,10 @@ Collect    == /\ Step("pool", "header") /\ \A j \in planned : w[j].pc = "ret"
               /\ UNCHANGED <<pipeline, prev, size, status, unsorted, out, bai, w, planned, tries, crashed, crashAt, crashKind, crashJob, tempLeft>>
 HeaderBam  == /\ Step("header", "merge")
               /\ UNCHANGED <<pipeline, prev, size, status, unsorted, out, bai, w, planned, collected, tries, crashed, crashAt, crashKind, crashJob, tempLeft>>
-MergeBegin == /\ Step("merge", "merging") /\ out' = [st |-> "partial", n |-> 0, sorted |-> TRUE]
+MergeBegin == /\ Step("merge", "merging") /\ out' = [st |-> "partial", n |-> 0, sorted |-> TRUE, rg |-> FALSE]
               /\ UNCHANGED <<pipeline, prev, size, status, unsorted, bai, w, planned, collected, tries, crashed, crashAt, crashKind, crashJob, tempLeft>>
 MergeEnd   == /\ Step("merging", "indexmerged")
-              /\ out' = [st |-> "complete", n |-> Sum([j \in collected |-> size[j]]), sorted |-> TRUE]
+              /\ out' = [st |-> "complete", n |-> Sum([j \in collected |-> size[j]]), sorted |-> TRUE, rg |-> TRUE]   \* merge -c keeps the @RG of the parts
               /\ UNCHANGED <<pipeline, prev, size, status, unsorted, bai, w, planned, collected, tries, crashed, crashAt, crashKind, crashJob, tempLeft>>
 IndexMerged == /\ Step("indexmerged", "rmparts") /\ bai' = "ok"
                /\ UNCHANGED <<pipeline, prev, size, status, unsorted, out, w, planned, collected, tries, crashed, crashAt, crashKind, crashJob, tempLeft>>
@@ -207,7 +207,7 @@ Obs == [status |-> status,
         indexed |-> bai = "ok", complete |-> out.n = Total]
 Inv_C20 == C20Clause(Obs) = "ok"
 (* the remaining half of C05: a run that finished left a sorted, indexed, re-headered output *)
-Inv_C05_Finished == pc = "done" => out.st = "complete" /\ out.sorted /\ bai = "ok"
+Inv_C05_Finished == pc = "done" => out.st = "complete" /\ out.sorted /\ out.rg /\ bai = "ok"
 Inv_Type == /\ status \in {"none", "unfinished", "fail", "ok"}
             /\ out.st \in {"absent", "partial", "complete"}
             /\ status = "fail" => crashed
